@@ -475,6 +475,9 @@ inductive TDStep
   | acceptExit | bgExit
   /-- ENVIRONMENT: `syncLoop` fails (fatal error of the chain manager) -/
   | bgFail
+  /-- ENVIRONMENT: the listener is closed from outside (its owner closes the `net.Listener`, or it
+  fails): `Accept` returns an error although neither `Run` nor `Close` closed it -/
+  | envCloseL
   | runRecv | runCloseL | runSweep | runPeersDone | runReturn
   | closeL | closeStop | closeRet
 deriving DecidableEq, Repr
@@ -518,6 +521,7 @@ def TD.step (fixed : Bool) (s : TD) : TDStep → Option TD
     else none
   | .bgFail =>
     if 0 < s.bgRun then some { s with bgRun := s.bgRun - 1, bgSend := s.bgSend + 1 } else none
+  | .envCloseL => some { s with lClosed := true }
   | .runRecv =>
     -- `<-errChan` rendezvous with one loop that is sending; that loop then calls `done()`
     let next : Option RunPc := match s.run with
